@@ -42,7 +42,7 @@ UPPER = dict(
 def budget(tier):
     if tier == "quick":
         return dict(examples=25, shards=16, shrink_calls=60)
-    return dict(examples=500, shards=16, shrink_calls=1000)
+    return dict(examples=300, shards=16, shrink_calls=1000)
 
 
 @st.composite
